@@ -116,7 +116,9 @@ package framework
 // existing entries stay.
 //@ define logsGrow() bool = forall st *Statement :: len(st.operations) >= old(len(st.operations))
 //@ define entriesKept() bool = forall st *Statement, j int :: 0 <= j && j < old(len(st.operations)) ==> st.operations[j] == old(st.operations[j])
-//@ define wfKept() bool = forall st *Statement :: old(wfLog(st)) ==> wfLog(st)
+// entries appended by the callee are well-formed ones (together with entriesKept: wfLog is preserved)
+//@ define okEntry(o Operation, j int) bool = knownOp(o) && revFn(o) != nil && (isUndoOp(o) ==> 0 <= undoTarget(o) && undoTarget(o) < j)
+//@ define newEntriesOK() bool = forall st *Statement, j int :: old(len(st.operations)) <= j && j < len(st.operations) ==> okEntry(st.operations[j], j)
 // address-taken locals of the caller (captured by the redo closures) are not reachable by the callee
 //@ define localsKept() bool = (forall p **Statement :: *p == old(*p)) && (forall p *Operation :: old(allocated(p)) ==> *p == old(*p))
 
@@ -126,7 +128,7 @@ package framework
 
 //@ func type:ReverseOperation
 //@   modifies *
-//@   ensures [assumed] logsGrow() && entriesKept() && wfKept() && localsKept()
+//@   ensures [assumed] logsGrow() && entriesKept() && newEntriesOK() && localsKept()
 //@   ensures [assumed] reversals() == old(reversals()) + 1
 //@   note every ReverseOperation value is one of the closures created in Evict/Pipeline/Allocate/undoOperation; each calls unevict/unpipeline/unallocate or Evict/Pipeline/Allocate/undoOperation, which only append to logs
 //@ end
@@ -134,7 +136,7 @@ package framework
 //@ func Operation.Reverse
 //@   requires knownOp(recv) && revFn(recv) != nil
 //@   modifies *
-//@   ensures [assumed] logsGrow() && entriesKept() && wfKept() && localsKept()
+//@   ensures [assumed] logsGrow() && entriesKept() && newEntriesOK() && localsKept()
 //@   ensures [assumed] reversals() == old(reversals()) + 1
 //@   note assumed at invoke sites; the four implementations (below) just call the stored ReverseOperation and are verified against this statement
 //@ end
@@ -142,28 +144,28 @@ package framework
 //@   props C13
 //@   requires op.reverseOperation != nil
 //@   modifies *
-//@   ensures logsGrow() && entriesKept() && wfKept() && localsKept()
+//@   ensures logsGrow() && entriesKept() && newEntriesOK() && localsKept()
 //@   ensures reversals() == old(reversals()) + 1
 //@ end
 //@ func (pipelineOperation).Reverse
 //@   props C13
 //@   requires op.reverseOperation != nil
 //@   modifies *
-//@   ensures logsGrow() && entriesKept() && wfKept() && localsKept()
+//@   ensures logsGrow() && entriesKept() && newEntriesOK() && localsKept()
 //@   ensures reversals() == old(reversals()) + 1
 //@ end
 //@ func (allocateOperation).Reverse
 //@   props C13
 //@   requires op.reverseOperation != nil
 //@   modifies *
-//@   ensures logsGrow() && entriesKept() && wfKept() && localsKept()
+//@   ensures logsGrow() && entriesKept() && newEntriesOK() && localsKept()
 //@   ensures reversals() == old(reversals()) + 1
 //@ end
 //@ func (undoOperation).Reverse
 //@   props C13
 //@   requires op.reverseOperation != nil
 //@   modifies *
-//@   ensures logsGrow() && entriesKept() && wfKept() && localsKept()
+//@   ensures logsGrow() && entriesKept() && newEntriesOK() && localsKept()
 //@   ensures reversals() == old(reversals()) + 1
 //@ end
 
